@@ -9,6 +9,9 @@
 import Valida.Cond
 import Valida.Heap
 import ValidaProofs.Lemmas.Basic
+import ValidaProofs.Lemmas.C02Tree
+import ValidaProofs.Lemmas.C02Heap
+import ValidaProofs.C01
 namespace ValidaProofs
 open Valida ValidaGen
 
@@ -16,8 +19,8 @@ open Valida ValidaGen
 
 /-- filtering without paths never changes the wrapped data and extracts no paths -/
 theorem C02_filter_frame (c : Cond RArg) (d : DataV) (fd : FD) (d' : DataV) (p : Option (List PyVal))
-    (h : filterAux c d false = .ok (fd, d', p)) : d' = d ∧ p = none := by
-  sorry
+    (h : filterAux c d false = .ok (fd, d', p)) : d' = d ∧ p = none :=
+  filterAux_frame c d fd d' p h
 
 /-- a combination gives, for every item, exactly the Boolean combination of what its operands give
     on the same data – at any depth, since the operands are arbitrary trees -/
@@ -25,84 +28,89 @@ theorem C02_pointwise (op : BinOp) (a b : Cond RArg) (d : DataV) (fd : FD) (d' :
     (h : filterAux (.bin op a b) d false = .ok (fd, d', p)) :
     ∃ fa fb, filterAux a d false = .ok (fa, d, none) ∧ filterAux b d false = .ok (fb, d, none) ∧
       fd = .bin op fa fb ∧ fd.result = List.zipWith op.apply fa.result fb.result := by
-  sorry
+  obtain ⟨fa, fb, ha, hb, rfl⟩ := filterAux_bin_inv op a b d fd d' p h
+  exact ⟨fa, fb, ha, hb, rfl, rfl⟩
 
 /-- conversely: if both operands filter, so does the combination -/
 theorem C02_combination_total (op : BinOp) (a b : Cond RArg) (d : DataV) (fa fb : FD)
     (ha : filterAux a d false = .ok (fa, d, none)) (hb : filterAux b d false = .ok (fb, d, none)) :
-    filterAux (.bin op a b) d false = .ok (.bin op fa fb, d, none) := by
-  sorry
+    filterAux (.bin op a b) d false = .ok (.bin op fa fb, d, none) :=
+  filterAux_bin_ok op a b d fa fb ha hb
 
 /-- the operators are the Boolean ones -/
 theorem C02_truth_tables :
     (∀ x y, BinOp.and.apply x y = (x && y)) ∧ (∀ x y, BinOp.or.apply x y = (x || y)) ∧
     (∀ x y, BinOp.xor.apply x y = (x != y)) ∧
     binaryClasses = [("ConditionAnd", "and", "and_"), ("ConditionOr", "or", "or_"), ("ConditionXor", "xor", "xor")] := by
-  sorry
+  refine ⟨fun x y => rfl, fun x y => rfl, fun x y => rfl, ?_⟩
+  decide
 
 /-- one boolean per item for every tree: the result has as many entries as the data has items -/
 theorem C02_result_length (c : Cond RArg) (d : DataV) (fd : FD) (d' : DataV) (p : Option (List PyVal))
     (hd : d.keys.length = d.values.length)
-    (h : filterAux c d false = .ok (fd, d', p)) : fd.result.length = d.values.length := by
-  sorry
+    (h : filterAux c d false = .ok (fd, d', p)) : fd.result.length = d.values.length :=
+  filterAux_result_length c d fd d' p hd h
 
 /-- any tree of conditions with literal arguments filters without aborting -/
 theorem C02_never_aborts (c : Cond PyVal) (d : DataV) :
-    ∀ e, filterAux c.lit d false = .error e → e = .unmodelled := by
-  sorry
+    ∀ e, filterAux c.lit d false = .error e → e = .unmodelled :=
+  filterAux_never_aborts_of_leaves c C01_never_aborts d
 
 /-- null is the identity of every operator, on either side -/
-theorem C02_null_right (op : BinOp) (a : Cond PyVal) : Cond.mkBin op a Cond.null = .ok a := by
-  sorry
-theorem C02_null_left (op : BinOp) (b : Cond PyVal) (hb : b.isNull = false) : Cond.mkBin op Cond.null b = .ok b := by
-  sorry
+theorem C02_null_right (op : BinOp) (a : Cond PyVal) : Cond.mkBin op a Cond.null = .ok a :=
+  mkBin_null_right op a
+theorem C02_null_left (op : BinOp) (b : Cond PyVal) (hb : b.isNull = false) : Cond.mkBin op Cond.null b = .ok b :=
+  mkBin_null_left op b hb
 
 /-- key-kind mixed with index-kind is refused; anything else (value with key, value with index) builds -/
 theorem C02_mixed_kinds (op : BinOp) (a b : Cond PyVal) (ha : a.isNull = false) (hb : b.isNull = false) :
     Cond.mkBin op a b =
       if (a.leaves ++ b.leaves).any (fun l => Cond.likeOf l.cls == "key") &&
          (a.leaves ++ b.leaves).any (fun l => Cond.likeOf l.cls == "index")
-      then .error .typeError else .ok (.bin op a b) := by
-  sorry
+      then .error .typeError else .ok (.bin op a b) :=
+  mkBin_mixed op a b ha hb
 
 /-! ### objects: histories of constructions over shared operands -/
 
 /-- the source has the guard that keeps `__init__` from re-initialising an existing object -/
 theorem C02_init_guard : binopInitGuard = true := by
-  sorry
+  rfl
 
 /-- constructing a combination never writes to an existing object: every object of the old heap is
     still there, unchanged -/
 theorem C02_frame (h : Heap) (fuel : Nat) (op : BinOp) (a b : Nat) :
-    ∀ i, i < h.size → (Heap.construct h fuel op a b).1[i]? = h[i]? := by
-  sorry
+    ∀ i, i < h.size → (Heap.construct h fuel op a b).1[i]? = h[i]? :=
+  HeapL.construct_frame h fuel op a b
 
 /-- the invariant "combinations refer to older objects only" is preserved -/
 theorem C02_acyclic (h : Heap) (fuel : Nat) (op : BinOp) (a b : Nat) (hac : h.Acyclic)
-    (ha : a < h.size) (hb : b < h.size) : (Heap.construct h fuel op a b).1.Acyclic := by
-  sorry
+    (ha : a < h.size) (hb : b < h.size) : (Heap.construct h fuel op a b).1.Acyclic :=
+  HeapL.construct_acyclic h fuel op a b hac ha hb
 
 /-- in an acyclic heap the denotation of an object only depends on the objects below it, so it is
     unchanged by any later construction (operands can be reused in further combinations) -/
 theorem C02_den_stable (h : Heap) (fuel fuel' : Nat) (op : BinOp) (a b : Nat) (hac : h.Acyclic)
     (ha : a < h.size) (hb : b < h.size) :
     ∀ i, i < h.size → Heap.den (Heap.construct h fuel op a b).1 fuel' i = Heap.den h fuel' i := by
-  sorry
+  -- holds for any operands: the bounds `ha`, `hb` are not needed
+  have _ := ha; have _ := hb
+  exact HeapL.construct_den_stable h fuel fuel' op a b hac
 
 /-- what the returned object denotes: the tree-level combination of what the operands denote -/
 theorem C02_construct_den (h : Heap) (fuel : Nat) (op : BinOp) (a b : Nat) (ca cb : Cond PyVal) (r : Nat)
     (hac : h.Acyclic) (ha : a < h.size) (hb : b < h.size)
     (hfa : Heap.den h fuel a = .ok ca) (hfb : Heap.den h fuel b = .ok cb)
     (h' : Heap) (hc : Heap.construct h (fuel + 1) op a b = (h', .ok r)) :
-    ∃ c, Cond.mkBin op ca cb = .ok c ∧ Heap.den h' (fuel + 1) r = .ok c := by
-  sorry
+    ∃ c, Cond.mkBin op ca cb = .ok c ∧ Heap.den h' (fuel + 1) r = .ok c :=
+  HeapL.construct_den h fuel op a b ca cb r hac ha hb hfa hfb h' hc
 
 /-- every history keeps the heap acyclic and never changes what an existing object denotes -/
 theorem C02_history (fuel fuel' : Nat) (ops : List HOp) (h : Heap) (objs : List (Option Nat)) (hac : h.Acyclic)
     (hobjs : ∀ o ∈ objs, ∀ i, o = some i → i < h.size) :
     (runHistory fuel h objs ops).1.Acyclic ∧
     ∀ i, i < h.size → Heap.den (runHistory fuel h objs ops).1 fuel' i = Heap.den h fuel' i := by
-  sorry
+  obtain ⟨h1, _, h3⟩ := HeapL.history_inv fuel fuel' ops h objs hac hobjs
+  exact ⟨h1, h3⟩
 
 /-! ### non-vacuity -/
 
